@@ -213,13 +213,13 @@ def Writer.append (w : Writer) (file : Bytes) (entries : List (Nat × Bytes)) (f
 
 def Writer.sealedW (w : Writer) : Bool × Nat := if w.indexStart = 0 then (false, 0) else (true, w.indexStart)
 
-/-- `ForceSeal`. On error the Go code does **not** roll back. -/
+/-- `ForceSeal`. On error the writer is rolled back like `Append` does (the file keeps whatever landed). -/
 def Writer.forceSeal (w : Writer) (file : Bytes) (fault : IoFault) : Except SegErr Nat × Writer × Bytes :=
   if w.indexStart > 0 then (.ok w.indexStart, w, file)
   else match w.appendIndex with
     | .error e => (.error e, w, file)
     | .ok w1 => match w1.appendCommit file fault with
-      | (.error e, file) => (.error e, w1, file)
+      | (.error e, file) => (.error e, w, file)
       | (.ok w2, file) => (.ok w2.indexStart, w2, file)
 
 /-! ## reading -/
